@@ -11,7 +11,9 @@ Driver for C02: the simple-cache model, the iterator model and the TTL model beh
   runs <run>*              body of run 0,1,…                    -> ok      run  = <step>,<step>,…/<findur>  (steps `-` = none); step = beh
   adv <dt>                 time passes                          -> ok
   call <k>                 simple: a call with key k            -> model=<res> hit|run     res = v<n>.<i> | n | f<j> | x<c>.<n> | x<c>p<payload>.<n>
-  it <k>                   iterator: a drained call with key k  -> model=<res>,<res>,…|- hit|run
+  it <k> [<consumer>]      iterator: a call with key k          -> model=<res>,<res>,…|- hit|run
+                           consumer: absent = drains the stream | t<n> = receives n >= 1 elements, then closes / drops the stream
+                           | c<n> = cancelled while the generator works on its step n (after n items; on a hit: drains)
   ttl <ttl>  [<k> <r>]     ttl_to_seconds of a spelling         -> model=<ticks>|E
 
   cond = all | nn | we:<c>+<c>… | oe:<c>+… | tc:<limit> | fn:<6 letters T F y z X for val,none,falsy,exc0,exc1,exc2>
@@ -115,6 +117,17 @@ def showRes : Res → String
   | .exc c p n => s!"x{c}p{p}.{n}"
   | .junk => "junk"
 
+def parseConsumer? : List String → Option Iter.Consumer
+  | [] => some .drain
+  | [w] =>
+    match w.toList with
+    | 't' :: r => match (String.ofList r).toNat? with
+      | some (n + 1) => some (.take n)      -- t<n>: n elements received = stops after element index n-1
+      | _ => none
+    | 'c' :: r => (String.ofList r).toNat?.map .cancel
+    | _ => none
+  | _ => none
+
 inductive Mode where
   | idle
   | simple (cfg : Simple.Cfg) (script : List Beh) (s : Simple.St)
@@ -152,15 +165,15 @@ def step (m : Mode) (line : String) : Mode × String :=
       | (s', .got r cached) => (.simple cfg sc s', s!"model={showRes r} {if cached then "hit" else "run"}")
       | (s', .unit) => (.simple cfg sc s', "bad-op")
     | _, _ => (m, "bad-op")
-  | ["it", k] =>
-    match m, k.toNat? with
-    | .iter cfg sc s, some k =>
-      match Iter.step cfg (fun n => sc.getD n ⟨[], 0⟩) s (.iter k) with
+  | "it" :: k :: cons =>
+    match m, k.toNat?, parseConsumer? cons with
+    | .iter cfg sc s, some k, some cs =>
+      match Iter.step cfg (fun n => sc.getD n ⟨[], 0⟩) s (.iter k cs) with
       | (s', .got rs cached) =>
         let items := if rs.isEmpty then "-" else ",".intercalate (rs.map showRes)
         (.iter cfg sc s', s!"model={items} {if cached then "hit" else "run"}")
       | (s', .unit) => (.iter cfg sc s', "bad-op")
-    | _, _ => (m, "bad-op")
+    | _, _, _ => (m, "bad-op")
   | ["ttl", t] =>
     match parseSpelling? t with
     | some sp => (m, match sp.ticks 0 0 with | some x => s!"model={x}" | none => "model=E")
